@@ -22,12 +22,13 @@ def parseLimits (s : String) : Option Limits :=
 def cfgLimits (cfg : List String) : Limits :=
   ((cfg.findSome? (IO.kv "lim")).bind parseLimits).getD {}
 
+/-- `ov=1` on a dial: made with `DialOpts::override_role()` -/
 def parseCOp (toks : List String) : Option COp :=
-  match toks.filter (fun t => !(t.startsWith "order=" || t.startsWith "aborts=")) with
+  match toks.filter (fun t => !(t.startsWith "order=" || t.startsWith "aborts=" || t.startsWith "ov=")) with
   | ["bypass", p] => p.toNat?.map .bypass
   | ["unbypass", p] => p.toNat?.map .unbypass
   | ["setlimits", l] => (parseLimits l).map .setLimits
-  | _ => (IO.parseOp toks).map .sw
+  | _ => (IO.parseOp (toks.filter (fun t => !t.startsWith "ov="))).map (fun op => COp.sw op (toks.contains "ov=1"))
 
 def renderSet (l : List Nat) : String := Drv.showNatList (sortNat l)
 
@@ -49,7 +50,11 @@ structure Mon where
   exEst : List Nat := []
   taint : Bool := false
   got : Option Sets := none
-  deriving Inhabited
+  /-- how each connection was CREATED: id ↦ `true` = by a dial (`Swarm::dial` / `ToSwarm::Dial`),
+  `false` = accepted from a listener; the direction under which it must be counted -/
+  created : List (Nat × Bool) := []
+  /-- `network_info().connection_counters()` of the main line: pi, po, ei, eo -/
+  counters : Option (Nat × Nat × Nat × Nat) := none
 
 def parsePP (s : String) : Option PP :=
   if s = "-" then some [] else
@@ -66,17 +71,38 @@ def parseSets (toks : List String) : Option Sets := do
            estOut := ← Drv.natList d, perPeer := ← parsePP e }
   | _ => none
 
-def histTable (h : Spec.Hist) (exDial exEst : List Nat) : Table :=
+def dirOf (created : List (Nat × Bool)) (c : Nat) (reported : Bool) : Bool :=
+  match created.find? (·.1 == c) with
+  | some x => x.2
+  | none => reported
+
+/-- the Swarm's connection table as its events showed it, minus the exempt connections; the
+direction of an established connection is the way it was created, not what the event says -/
+def histTable (h : Spec.Hist) (created : List (Nat × Bool)) (exDial exEst : List Nat) : Table :=
   { pendIn := h.conns.filterMap fun x => match x.2 with | .pendIn => some x.1 | _ => none,
     pendOut := h.conns.filterMap fun x => match x.2 with
       | .pendOut _ => if exDial.contains x.1 then none else some x.1 | _ => none,
     estIn := h.conns.filterMap fun x => match x.2 with
-      | .est p false => if exEst.contains x.1 then none else some (x.1, p) | _ => none,
+      | .est p o => if exEst.contains x.1 || dirOf created x.1 o then none else some (x.1, p) | _ => none,
     estOut := h.conns.filterMap fun x => match x.2 with
-      | .est p true => if exEst.contains x.1 then none else some (x.1, p) | _ => none }
+      | .est p o => if exEst.contains x.1 || !dirOf created x.1 o then none else some (x.1, p) | _ => none }
 
-def histEst (h : Spec.Hist) : List (Nat × Nat × Bool) :=
-  h.conns.filterMap fun x => match x.2 with | .est p o => some (x.1, p, o) | _ => none
+def histEst (h : Spec.Hist) (created : List (Nat × Bool)) : List (Nat × Nat × Bool) :=
+  h.conns.filterMap fun x => match x.2 with | .est p o => some (x.1, p, dirOf created x.1 o) | _ => none
+
+/-- the Swarm reports (event endpoint / `connection_counters`) every connection under the direction
+it was created with — a role override does not turn a dialed connection into an incoming one -/
+def directionClauses (h : Spec.Hist) (created : List (Nat × Bool)) (counters : Option (Nat × Nat × Nat × Nat)) : List String :=
+  (if h.conns.all (fun x => match x.2 with | .est _ o => dirOf created x.1 o == o | _ => true) then []
+   else ["C52:established_direction_differs_from_creation"]) ++
+  (match counters with
+   | none => []
+   | some (pi, po, ei, eo) =>
+     let est := histEst h created
+     (if pi = h.count (· == .pendIn) then [] else ["C52:counters_pending_incoming"]) ++
+     (if po = h.count (fun s => match s with | .pendOut _ => true | _ => false) then [] else ["C52:counters_pending_outgoing"]) ++
+     (if ei = (est.filter (fun x => !x.2.2)).length then [] else ["C52:counters_established_incoming"]) ++
+     (if eo = (est.filter (fun x => x.2.2)).length then [] else ["C52:counters_established_outgoing"]))
 
 def histHasConns (h : Spec.Hist) : Bool :=
   h.conns.any fun x => match x.2 with | .pendOut _ | .pendIn | .est .. => true | _ => false
@@ -95,7 +121,7 @@ def specMain (mon : Mon) (args outs : List String) : Mon × String :=
   | some (COp.unbypass p) => ({ mon with bypass := setRemove mon.bypass p, got }, verdict bad)
   | some (COp.setLimits l) =>
     ({ mon with limits := l, taint := mon.taint || histHasConns mon.m.h, got }, verdict bad)
-  | some (COp.sw op) =>
+  | some (COp.sw op _) =>
     let (m', v) := Swarm.Drv.onMain "C52:" { mon.m with op := some op } op outs
     let st0 : State := State.init mon.m.peers
     let line := IO.parseImpl outs
@@ -112,16 +138,26 @@ def specMain (mon : Mon) (args outs : List String) : Mon × String :=
           (l.log.filterMap fun e => match e with | .sEstablished c .. => some c | _ => none) ++ mon.exEst
         else mon.exEst
       | _, _ => mon.exEst
-    ({ mon with m := m', exDial, exEst, got }, if v == "ok" then verdict bad else v)
+    let created := match op, line with
+      | .dial .., some l => (match l.id with | some id => (id, true) :: mon.created | none => mon.created)
+      | _, _ => mon.created
+    let counters := line.map fun l => (l.pi, l.po, l.ei, l.eo)
+    ({ mon with m := m', exDial, exEst, got, created, counters }, if v == "ok" then verdict bad else v)
 
 def specOrder (mon : Mon) (outs : List String) : Mon × String :=
+  let raw := match outs with | [t] => IO.parseLog t | _ => []
   let (m', v) := Swarm.Drv.onOrder "C52:" mon.m outs
-  let t := histTable m'.h mon.exDial mon.exEst
+  let created := raw.foldl (fun acc e => match e with
+    | .sIncoming c => if acc.any (·.1 == c) then acc else (c, false) :: acc
+    | .sDialing c _ => if acc.any (·.1 == c) then acc else (c, true) :: acc
+    | _ => acc) mon.created
+  let t := histTable m'.h created mon.exDial mon.exEst
   let v1 := if mon.taint then [] else violations mon.limits t
   let v2 := match mon.got with
-    | some g => bookkeeping g t.pendIn t.pendOut (histEst m'.h)
+    | some g => bookkeeping g t.pendIn t.pendOut (histEst m'.h created)
     | none => []
-  ({ mon with m := m', got := none }, if v == "ok" then verdict (v1 ++ v2) else v)
+  let v3 := directionClauses m'.h created mon.counters
+  ({ mon with m := m', got := none, created, counters := none }, if v == "ok" then verdict (v1 ++ v2 ++ v3) else v)
 
 def machine : Drv.Machine (CS × List Ev) Mon where
   init cfg := (CS.init (IO.parsePeers cfg) (cfgLimits cfg), [])
